@@ -251,6 +251,14 @@ def main(argv):
             rb = vsim.Rng(seed, "c08-broken", g)
             src = progen.break_program(progen.gen_program(rb.fork("p"), size="tiny"), rb)
             cands.append(("bad%03d.as" % g, src.encode("latin-1"), "generated"))
+        # identifiers with escaped bytes above 127, a spread of byte values, through every emitter
+        # (all 128 values in one program, and in slices: a value for which an emitter faults in the
+        # reference world takes only its slice out of the workload)
+        hv = list(range(0x80, 0x100))
+        vsim.Rng(seed, "c08-hibyte").shuffle(hv)
+        hsl = [hv] + [hv[i::4] for i in range(4)] + ([hv[i::16] for i in range(16)] if tier != "quick" else [])
+        for g, vals in enumerate(hsl):
+            cands.append(("hibyte%02d.as" % g, progen.hibyte_program(vals).encode("latin-1"), "hibyte"))
         # generated programs split over several local files (main.as includes partN.as)
         AUX = {}
         for g in range(3 if tier == "quick" else 20):
@@ -264,6 +272,8 @@ def main(argv):
         work = []
         for name, text, origin in cands:
             o_ = gen_opts(vsim.Rng(seed, "c08-opts", name))
+            if origin == "hibyte":
+                o_ = ["-Q%d" % vsim.Rng(seed, "c08-opts", name).below(3), "-Fao", "-Ffm", "-Fc", "-Flsp", "-Fjava", "-Fasy", "-Fap"]
             if origin == "generated" and (b"throw" in text or b"try" in text):
                 o_ = [x for x in o_ if x != "-Fjava"]	# the Java back end does not implement exception handling
             work.append((name, text, origin, o_))
@@ -324,6 +334,14 @@ def main(argv):
             cases.append((pi, {}))					# repetition of the reference plan
             for _ in range(nplans - 1):
                 cases.append((pi, gen_perturbation(rng, pr["nalloc"])))
+            if pr["origin"] == "hibyte":
+                # what lies beside an emitter's tables moves with the image and the heap
+                for hb in BASES:
+                    cases.append((pi, {"heapbase": hb}))
+                cases.append((pi, {"image": "b"}))
+                cases.append((pi, {"image": "b", "heapbase": rng.choice(BASES), "gcenv": {"GC_FRUGAL": "1"}}))
+                for fl in FILLS:
+                    cases.append((pi, {"wash": "wash on %s %s" % fl}))
         # "forced to run at every opportunity": a small program compiled with a collection at EVERY
         # allocation - as consecutive dense blocks in separate worlds (every allocation index collects in
         # one of them), and in the thorough tier also as one world that collects at each of its
@@ -538,7 +556,7 @@ def main(argv):
             "distinct_nontrivial": len(distinct) + len(batch_results),
             "rule": "per program (corpus sample validated on the current tree + generated programs) one repetition of the reference plan and seeded perturbed plans over {collection schedule, heap base, stack pad, environment size and junk variables, fill pattern, clock, pid, working-directory depth, GC_* tuning}; plus batched-vs-single invocations; distinct = distinct (program, perturbation); non-trivial = at least one dimension differs from the reference",
             "samples": [{"program": progs[c[0]]["name"], "opts": progs[c[0]]["opts"], "perturbation": c[1]} for c in cases[1:done:max(1, done // 5)]][:6],
-            "programs": len(progs), "program_origins": {"corpus": ncorpus, "generated": sum(1 for p in progs if p["origin"] == "generated"), "saved_forms_as_input": sum(1 for p in progs if p["origin"] == "saved"), "every_allocation_worlds": every_n, "corpus_wide_shallow": nwide_kept, "libaldor_wide_shallow": nlib_kept},
+            "programs": len(progs), "program_origins": {"corpus": ncorpus, "generated": sum(1 for p in progs if p["origin"] == "generated"), "high_byte_identifier_programs": sum(1 for p in progs if p["origin"] == "hibyte"), "saved_forms_as_input": sum(1 for p in progs if p["origin"] == "saved"), "every_allocation_worlds": every_n, "corpus_wide_shallow": nwide_kept, "libaldor_wide_shallow": nlib_kept},
             "programs_rejected_with_same_diagnostics_kept": sum(1 for p in progs if p["ref"].rc != 0),
             "programs_dropped_by_reference_validation": dropped,
             "worlds_planned": len(cases), "worlds_run": done, "batch_groups": len(batch_results),
